@@ -49,10 +49,12 @@ def V(sig, detail=""):
 
 
 def state_classes() -> dict:
+    """The state messages, independently of the library's own subscription table: every wire message whose model (C14's
+    name-based pairing of api.proto messages with model classes) is an entity state."""
     T = c14.tables()
-    from aioesphomeapi import model_conversions as MC
-
-    return {k.__name__: k for k in MC.SUBSCRIBE_STATES_RESPONSE_TYPES}
+    M, pb = T["M"], T["pb"]
+    return {name: getattr(pb, name) for name, model in T["pairs"].items()
+            if isinstance(model, type) and issubclass(model, M.EntityState) and model is not M.EntityState}
 
 
 def build_msg(m: dict):
